@@ -392,9 +392,9 @@ Theorem valid_facts p : pos_valid p = true ->
   (forall e, ep p = Some e -> occ p e = false /\ rank_of e = sixth_rank (turn p)).
 Proof.
   unfold pos_valid. intro H.
-  repeat (apply andb_prop in H; destruct H as [H ?]).
-  match goal with Hx : forallb _ _ = true |- _ => rename Hx into Hpawn end.
-  match goal with Hx : ep_ok p = true |- _ => rename Hx into Hepok end.
+  apply andb_prop in H. destruct H as [H Hepok].
+  do 5 (apply andb_prop in H; destruct H as [H _]).
+  apply andb_prop in H. destruct H as [_ Hpawn].
   split.
   - intros s c Hs Hhas.
     destruct (mem s [0;1;2;3;4;5;6;7;56;57;58;59;60;61;62;63]) eqn:Hmem.
